@@ -150,7 +150,10 @@ let run_case (f : string array) : string =
      | _ -> Driver2.dec_case f)
   | _ -> (match Driver_fp.run_case f with Some r -> r | None -> Driver2.run_case f)
 
+exception Model_timeout
+
 let () =
+  Sys.set_signal Sys.sigalrm (Sys.Signal_handle (fun _ -> raise Model_timeout));
   Driver2.handler_of := mk_handler;
   Driver2.handler_obs_ref := handler_obs;
   let out = Buffer.create (1 lsl 16) in
@@ -161,7 +164,11 @@ let () =
        if line = "" || line.[0] = '#' then Buffer.add_string out "\n"
        else begin
          let f = Array.of_list (List.filter (fun s -> s <> "") (String.split_on_char ' ' line)) in
-         let r = (try (if Array.length Sys.argv > 1 && Sys.argv.(1) = "--spec" then Driver2.spec_case f else run_case f) with
+         (* a runaway evaluation (only seen on broken tables) is cut after 20 s *)
+         ignore (Unix.alarm 20);
+         let r = (try (let r = (if Array.length Sys.argv > 1 && Sys.argv.(1) = "--spec" then Driver2.spec_case f else run_case f) in
+                       ignore (Unix.alarm 0); r) with
+             | Model_timeout -> "abn # model timeout"
              | Failure m -> "DRIVER-ERROR " ^ m
              | Stack_overflow -> "DRIVER-ERROR stack overflow"
              | Not_found -> "DRIVER-ERROR not found") in
